@@ -220,22 +220,25 @@ def stepLibc (w : List String) : Out :=
     | none => { model := "bad-op" }
   | _ => { model := "bad-op" }
 
+/-- `G<spec>` = the same node with a string held in the grown (heap) representation: same value -/
+def ungrown (ns : String) : String := if ns.startsWith "G" then (ns.drop 1).toString else ns
+
 def step (_ : Unit) (w : List String) : Unit × Out :=
   let out : Out :=
     match w with
-    | ["get", ns] => match JVal.parse ns with | some n => stepGet accNames false n | none => { model := "bad-op" }
-    | ["geti", ns] => match JVal.parse ns with | some n => stepGet ["i"] true n | none => { model := "bad-op" }
-    | ["geti64", ns] => match JVal.parse ns with | some n => stepGet ["i64"] true n | none => { model := "bad-op" }
-    | ["getu64", ns] => match JVal.parse ns with | some n => stepGet ["u64"] true n | none => { model := "bad-op" }
-    | ["getd", ns] => match JVal.parse ns with | some n => stepGet ["d"] true n | none => { model := "bad-op" }
-    | ["getb", ns] => match JVal.parse ns with | some n => stepGet ["b"] true n | none => { model := "bad-op" }
+    | ["get", ns] => match JVal.parse (ungrown ns) with | some n => stepGet accNames false n | none => { model := "bad-op" }
+    | ["geti", ns] => match JVal.parse (ungrown ns) with | some n => stepGet ["i"] true n | none => { model := "bad-op" }
+    | ["geti64", ns] => match JVal.parse (ungrown ns) with | some n => stepGet ["i64"] true n | none => { model := "bad-op" }
+    | ["getu64", ns] => match JVal.parse (ungrown ns) with | some n => stepGet ["u64"] true n | none => { model := "bad-op" }
+    | ["getd", ns] => match JVal.parse (ungrown ns) with | some n => stepGet ["d"] true n | none => { model := "bad-op" }
+    | ["getb", ns] => match JVal.parse (ungrown ns) with | some n => stepGet ["b"] true n | none => { model := "bad-op" }
     | "inc" :: ns :: vs =>
-      match JVal.parse ns, vs.mapM parseInt? with
+      match JVal.parse (ungrown ns), vs.mapM parseInt? with
       | some n, some xs => stepInc n xs
       | _, _ => { model := "bad-op" }
     | [op, ns, arg] =>
       if op = "seti" ∨ op = "seti64" ∨ op = "setu64" ∨ op = "setb" ∨ op = "setd" then
-        match JVal.parse ns with | some n => stepSet op n arg | none => { model := "bad-op" }
+        match JVal.parse (ungrown ns) with | some n => stepSet op n arg | none => { model := "bad-op" }
       else if op = "libc" then stepLibc [ns, arg]
       else { model := "bad-op" }
     | ["parsei64", h] => match ofHex h with | some t => stepParse true t | none => { model := "bad-op" }
